@@ -743,6 +743,10 @@ pub struct World {
     /// If non-zero every TimeSource read advances both clocks by this much (time passes while
     /// the machine computes) and is logged.
     pub autotick_ns: i128,
+    /// C17: answer HTTP requests with the in-process mock-omaha-server instead of FakeOmaha.
+    pub mock: Option<Arc<tokio::sync::Mutex<mock_omaha_server::OmahaServer>>>,
+    /// C17: public keys the client is configured with (overrides the FakeOmaha signer's keys).
+    pub client_keys: Option<omaha_client::cup_ecdsa::PublicKeys>,
 }
 
 impl World {
@@ -774,6 +778,8 @@ impl World {
             cup: None,
             nonces: vec![],
             autotick_ns: 0,
+            mock: None,
+            client_keys: None,
         }))
     }
 
